@@ -270,7 +270,11 @@ impl Compiler {
                     let rest_arr = self.builder.alloc_register()?;
                     self.builder.emit(Op::CreateRestArray {
                         dst: rest_arr,
-                        start_index: i as u8,
+                        start_index: u8::try_from(i).map_err(|_| {
+                            JsError::internal_error(
+                                "Too many elements before a rest element (max 255)",
+                            )
+                        })?,
                     });
                     self.compile_pattern_binding(&rest.argument, rest_arr, mutable, is_var)?;
                     self.builder.free_register(rest_arr);
@@ -525,7 +529,11 @@ impl Compiler {
                     let rest_arr = self.builder.alloc_register()?;
                     self.builder.emit(Op::CreateRestArray {
                         dst: rest_arr,
-                        start_index: i as u8,
+                        start_index: u8::try_from(i).map_err(|_| {
+                            JsError::internal_error(
+                                "Too many elements before a rest element (max 255)",
+                            )
+                        })?,
                     });
                     self.compile_pattern_assignment(&rest.argument, rest_arr)?;
                     self.builder.free_register(rest_arr);
